@@ -489,7 +489,9 @@ def run_driver(binary, cases_path, out_path, n_cases, per_case_timeout=20, extra
                 if sz != last_size:
                     last_size = sz
                     last_change = time.time()
-                elif time.time() - last_change > per_case_timeout:
+                # (after three stalls in one replay the code under test is known to hang - each one is reported - and the watchdog
+                #  stops being generous, so that a check of a hanging tree ends in minutes rather than in an hour)
+                elif time.time() - last_change > (per_case_timeout if len([c for c in crashes if c["outcome"] == "Timeout"]) < 3 else max(5.0, per_case_timeout / 4.0)):
                     p.kill()
                     p.wait()
                     outcome = "Timeout"
